@@ -39,7 +39,7 @@ ASSUMPTIONS = [
 
 def params(tier):
     if tier == 'quick':
-        return {'examples': 3000, 'wall': 80, 'case_timeout': 40}
+        return {'examples': 3000, 'wall': 120, 'case_timeout': 40}
 
     return {'examples': 25000, 'wall': 600, 'case_timeout': 60}
 
